@@ -214,6 +214,38 @@ def longlits2(rng, n):
     return bytes(out[:n])
 
 
+def exactlen(rng, n):
+    """incompressible bytes carrying a few isolated matches of an EXACT short length (3..8, the bytes just before and after differ), each after
+    a long match-free stretch (256..3000 bytes): the skipping match finders (fast / double-fast step up their stride while nothing is found)
+    meet the match at every stride phase, with a match length at the edge of minMatch and of their hash-table write-back rules"""
+    x = bytearray(randbytes(rng, n))
+    pos = rng.randint(300, 1200)
+    while pos + 16 < n:
+        ln = rng.choice([3, 4, 4, 4, 5, 6, 7, 8])
+        q = rng.randrange(1, max(2, pos - ln - 8))
+        x[pos:pos + ln] = x[q:q + ln]
+        if pos + ln < n: x[pos + ln] = x[q + ln] ^ 0x55
+        x[pos - 1] = x[q - 1] ^ 0xAA
+        pos += ln + rng.randint(256, 3000)
+    return bytes(x)
+
+
+def ldmjob(rng):
+    """several MiB of incompressible bytes with ONE long repetition placed so that, inside a worker job of `jmb` MiB with long-distance matching,
+    the 1 MiB chunks the long-distance matcher works through are: chunks without any match (not only the first of the job), then a chunk
+    that holds the match - its literal run spans the match-free chunks before it.  Returns (bytes, jmb)."""
+    MB = 1 << 20
+    jmb = rng.choice([3, 4, 4, 5])
+    n = jmb * MB + rng.randint(1000, 200000)
+    x = bytearray(randbytes(rng, n))
+    c = rng.randint(2, jmb - 1)                       # chunk of the job that holds the match; chunk c-1 (not the first) has none
+    ln = rng.choice([2048, 8192, 8192, 30000])
+    dst = c * MB + rng.randint(250000, MB - ln - 50000)
+    src = rng.choice([dst - rng.randint(100000, 240000), rng.randint(0, MB - ln - 1)])      # same chunk, or back in chunk 0
+    x[dst:dst + ln] = x[src:src + ln]
+    return bytes(x), jmb
+
+
 def subtail(rng, nblocks):
     """128 KiB blocks made of one or two long copies of earlier data followed by a short incompressible tail holding a single short match;
     the next block starts by re-using that match's distance. With ZSTD_c_targetCBlockSize the tail becomes a raw sub-block whose
